@@ -6,7 +6,7 @@ import copy
 
 import networkx as nx
 
-from .bond import _create_compatible_bond_text
+from .bond import BondDescriptor, _create_compatible_bond_text
 from .core import _GLOBAL_RNG, BigSMILESbase
 from .mixture import Mixture
 from .stochastic import Stochastic
@@ -67,9 +67,11 @@ class Molecule(BigSMILESbase):
                     else:
                         other_bd = self._elements[-1].bond_descriptors[-1]
                     if len(pre_stochastic.bond_descriptors) > 0:
+                        # A written bond descriptor has to be the one, that is inserted automatically otherwise.
+                        expected_bd = BondDescriptor(_create_compatible_bond_text(other_bd), 0, "", None)
                         found_compatible = False
-                        for bd in pre_stochastic.bond_descriptors[0]:
-                            if bd.is_compatible(other_bd):
+                        for bd in pre_stochastic.bond_descriptors:
+                            if bd.generate_string(False) == expected_bd.generate_string(False):
                                 found_compatible = True
                         if not found_compatible:
                             raise RuntimeError(
